@@ -1,10 +1,8 @@
 package driver
 
-type CodecCase struct{}
 type WireCase struct{}
 type ConcurrentConfig struct{}
 
-func RunIface(reg Registry, rec *Recorder)                 {}
-func RunCodec(reg Registry, rec *Recorder, cs []CodecCase) {}
-func RunWire(reg Registry, rec *Recorder, g Group)         {}
-func RunConcurrent(reg Registry, rec *Recorder, g Group)   {}
+func RunIface(reg Registry, rec *Recorder)               {}
+func RunWire(reg Registry, rec *Recorder, g Group)       {}
+func RunConcurrent(reg Registry, rec *Recorder, g Group) {}
